@@ -125,10 +125,21 @@ def deq(a, b):
 
 
 def matches(got, exp):
+    """exp is the specification's expectation: a result {ok,v} (a refusal matches any refusal, a value
+    must be equal), {"anyof":[..]}, or a record whose keys are each matched (extra keys of got are
+    raw material for trace validation, not judged here)."""
     if isinstance(exp, dict) and "anyof" in exp:
         return any(matches(got, e) for e in exp["anyof"])
-    if isinstance(exp, dict) and isinstance(got, dict) and exp.get("ok") is False and "ok" in got and "panic" not in got:
-        return got.get("ok") is False      # a refusal is a refusal; no further content is compared
+    if isinstance(got, dict) and "panic" in got:
+        return False
+    if isinstance(exp, dict) and "ok" in exp and "v" in exp:
+        if not (isinstance(got, dict) and "ok" in got):
+            return False
+        if exp["ok"] is False:
+            return got.get("ok") is False
+        return got.get("ok") is True and deq(got.get("v"), exp["v"])
+    if isinstance(exp, dict) and len(exp) > 0:
+        return isinstance(got, dict) and all(k in got and matches(got[k], exp[k]) for k in exp)
     return deq(got, exp)
 
 
